@@ -691,7 +691,8 @@ def gen_plan(family, seed, msgs, tier='quick', index=None):
             for o in blk:
                 if o['op'] == 'decode':
                     o.update({'wire': True, 'ive': False})
-                    handles.append((len(ops), o['m'], chosen[o['m']]['nsub'], True))
+                    if not chosen[o['m']].get('rej'):
+                        handles.append((len(ops), o['m'], chosen[o['m']]['nsub'], True))
                 ops.append(o)
         if step == block_at:
             # reach the real limit: more than 50 distinct keys through both roots
@@ -740,6 +741,8 @@ def gen_plan(family, seed, msgs, tier='quick', index=None):
                 continue
             op = {'op': 'decode_bad', 'c': c, 'm': mi, 'fault': fault, 'ive': rng.random() < max(p_ive, 0.15)}
         elif k in ('render', 'query', 'mdquery', 'script', 'wire', 'subset_encode'):
+            if not handles:
+                continue
             h, hm, nsub, wired = rng.choice(handles[-6:])
             if k == 'render':
                 op = {'op': 'render', 'h': h, 'fmt': rng.choice(FORMATS)}
@@ -780,11 +783,13 @@ def gen_plan(family, seed, msgs, tier='quick', index=None):
                 # message: a failed load must not leave anything half-built behind
                 ops.append(op)
                 ops.append({'op': 'decode', 'c': c, 'm': mi, 'wire': True, 'ive': False})
-                handles.append((len(ops) - 1, mi, chosen[mi]['nsub'], True))
+                if not chosen[mi].get('rej'):
+                    handles.append((len(ops) - 1, mi, chosen[mi]['nsub'], True))
                 if rng.random() < 0.7:
                     c2 = c if rng.random() < 0.5 else rng.randrange(nclients)
                     ops.append({'op': 'decode', 'c': c2, 'm': mi, 'wire': True, 'ive': False})
-                    handles.append((len(ops) - 1, mi, chosen[mi]['nsub'], True))
+                    if not chosen[mi].get('rej'):
+                        handles.append((len(ops) - 1, mi, chosen[mi]['nsub'], True))
                 continue
         elif k == 'restart':
             op = {'op': 'restart', 'c': c}
